@@ -124,7 +124,7 @@ MUTANTS = [
  # ---- C12
  dict(id="M12a", props=["C12", "C13"], file=TL, what="TwoLevel inner n_advance asked for max_n - n0 steps",
       old="                            n1 = n0 + n_advance(self._max_n - self._r - n0,\n                                                n_snapshots,",
-      new="                            n1 = n0 + n_advance(self._max_n - n0,\n                                                n_snapshots,", names={"C12": "call-n_advance[1]", "C13": "planner-call[1]"}, expect={"C12": [1, 2], "C13": 1}),
+      new="                            n1 = n0 + n_advance(self._max_n - n0,\n                                                n_snapshots,", names="call-n_advance[1]", expect={"C12": 1, "C13": 1}),
  dict(id="M12b", props=["C12", "C16"], file=MX, what="table arm of Mixed asks for one step more",
       old="                    step_type, n1, _ = schedule[\n                        self._max_n - self._r - n0,", new="                    step_type, n1, _ = schedule[\n                        self._max_n - self._r - n0 + 1,",
       names="schedule[]"),
